@@ -18,7 +18,8 @@ EXTENDS SensLayout
 CONSTANTS NParams,        \* NParams[m]: number of parameters of model m
           Models, Classes, MaxFree
 Starts == {"interior", "lower", "upper", "generating"}
-Boxes  == {"tight", "wide"}
+Boxes  == {"tight", "wide", "excluding"}     \* "excluding": the box does not contain the data-generating values (the optimum
+                                             \* then lies on its boundary); bounds may be given as integers
 
 InjSeqsUpTo(S, k) == {s \in UNION {[1..n -> S] : n \in 1..k} : \A i, j \in DOMAIN s : i # j => s[i] # s[j]}
 
@@ -27,7 +28,8 @@ fvars == <<cfg, phase, outcome>>
 
 Init == /\ cfg \in {c \in [model : Models, class : Classes, start : Starts, box : Boxes,
                              free : UNION {InjSeqsUpTo(1..NParams[m], MaxFree) : m \in Models}] :
-                      \A i \in DOMAIN c.free : c.free[i] <= NParams[c.model]}
+                      /\ \A i \in DOMAIN c.free : c.free[i] <= NParams[c.model]
+                      /\ (c.box = "excluding" => c.start # "generating")}
         /\ phase = "chosen" /\ outcome = <<>>
 
 BoundsPairs(lb, ub)   == [i \in 1..Len(lb) |-> <<lb[i], ub[i]>>]
